@@ -579,7 +579,7 @@ def run_shard(args):
     recs = {}
     CH = 300 if kind != 'special' else 4      # special cases in small batches (some of them used to crash or loop)
     for b in range(0, len(cases), CH):
-        recs.update(safe_run_shard(binary, cases[b:b + CH], tag='c13%s%d' % (kind[0], shard), per_case_timeout=10.0, min_batch_timeout=90.0, env=_env_for(binary)))
+        recs.update(safe_run_shard(binary, cases[b:b + CH], tag='c13%s%d' % (kind[0], shard), per_case_timeout=90.0, min_batch_timeout=180.0, env=_env_for(binary)))
     trun = time.time() - t0 - tgen
     suspects = []
 
@@ -597,7 +597,7 @@ def run_shard(args):
         r = recs.get(c.id)
         if r is not None and r.hang and not r.crash:
             # the batch watchdog fired (possible on an overloaded machine): the case is re-run alone; only a second trip is a hang
-            r = safe_run_shard(binary, [c], tag='c13h%d' % shard, per_case_timeout=40.0, min_batch_timeout=150.0, env=_env_for(binary)).get(c.id)
+            r = safe_run_shard(binary, [c], tag='c13h%d' % shard, per_case_timeout=300.0, min_batch_timeout=300.0, env=_env_for(binary)).get(c.id)
         if r is None or not r.complete or r.crash or r.hang:
             crash_entry(c, r)
             continue
@@ -635,14 +635,14 @@ def run_shard(args):
         need = [x for x in suspects if int(x[0].opt.get('chk', 1)) != 1]
         recs2 = {}
         for b in range(0, len(need), 40):
-            recs2.update(safe_run_shard(binary, [_detailed(c) for c, _ in need[b:b + 40]], tag='c13v%d' % shard, per_case_timeout=20.0,
+            recs2.update(safe_run_shard(binary, [_detailed(c) for c, _ in need[b:b + 40]], tag='c13v%d' % shard, per_case_timeout=120.0,
                                         min_batch_timeout=240.0, env=_env_for(binary)))
         for c, viol in suspects:
             r2 = recs2.get(c.id + '_d')
             if int(c.opt.get('chk', 1)) != 1 and (r2 is None or not r2.complete or r2.hang):
                 # batch was cut short (watchdog on an overloaded machine): again, alone, up to three times
                 for _try in range(3):
-                    r2 = safe_run_shard(binary, [_detailed(c)], tag='c13w%d' % shard, per_case_timeout=40.0, min_batch_timeout=300.0, env=_env_for(binary)).get(c.id + '_d')
+                    r2 = safe_run_shard(binary, [_detailed(c)], tag='c13w%d' % shard, per_case_timeout=300.0, min_batch_timeout=300.0, env=_env_for(binary)).get(c.id + '_d')
                     if r2 is not None and (r2.complete or r2.crash):
                         break
             if r2 is not None and r2.complete and not r2.crash and not r2.hang:
@@ -657,7 +657,8 @@ def run_shard(args):
                 if r2 is not None and r2.crash:
                     crash_entry(c, r2)
                 else:
-                    out['harness'].append('%s: disagreement seen with coarse checking could not be re-executed with per-operation checking' % c.id)
+                    out['harness'].append('%s: disagreement seen with coarse checking could not be re-executed with per-operation checking (%s)' % (
+                        c.id, 'no record' if r2 is None else 'complete=%s hang=%s lines=%d' % (r2.complete, r2.hang, len(r2.lines))))
                 continue
             for key, what, det in viol:
                 out['violations'].append((key, what, {'case': c.to_json(), 'expected_vs_observed': det}))
@@ -740,9 +741,9 @@ def shrink(binary, case_json, key, max_rounds=14, pid=PID, base=frozenset()):
 # ---------------------------------------------------------------------------------------------------
 TIERS = {
     #            random scripts, ops each, exhaustive depth
-    'micro': dict(nrandom=96, nops=200, depth=0, chk=4),         # first 6 scripts of each shard
-    'mini': dict(nrandom=320, nops=200, depth=0, chk=4),        # subset of quick (same shards, first 20 scripts each): sensitivity runs
-    'quick': dict(nrandom=2000, nops=200, depth=2, chk=4),
+    'micro': dict(nrandom=96, nops=200, depth=0, chk=1),         # first 6 scripts of each shard
+    'mini': dict(nrandom=320, nops=200, depth=0, chk=1),        # subset of quick (same shards, first 20 scripts each): sensitivity runs
+    'quick': dict(nrandom=2000, nops=200, depth=2, chk=1),      # invariants + dump hash after EVERY operation
     'thorough': dict(nrandom=4000, nops=1000, depth=3, chk=10),
 }
 
